@@ -55,8 +55,12 @@ class S:
         w = self.w = World(ctx)
         for rc in RCS:
             w.rc(rc)
+        w.rc('CUSTOM_FOO', 10000)
+        w.rc('CUSTOM_BAR', 10001)          # never used by an inventory
         for t in (T1, T2):
             w.trait(t)
+        w.trait('CUSTOM_T3')               # never associated
+        w.trait('HW_CPU_X86_AVX')          # a standard trait
         w.agg(1)
         w.agg(2)
         # more projects than users: surrogate ids of the two tables do not
@@ -67,7 +71,8 @@ class S:
         w.provider(1)
         w.provider(2, parent=1)
         self.inv = {}
-        for p, rc in ((1, 'VCPU'), (1, 'DISK_GB'), (2, 'VCPU')):
+        for p, rc in ((1, 'VCPU'), (1, 'DISK_GB'), (2, 'VCPU'),
+                      (2, 'CUSTOM_FOO')):
             self.inv[(p, rc)] = w.inventory(p, rc)
         self.tr = {(1, T1): w.has_trait(1, T1), (2, T2): w.has_trait(2, T2)}
         self.ag = {(1, 1): w.in_agg(1, 1), (1, 2): w.in_agg(1, 2)}
@@ -183,6 +188,60 @@ def read_provider_list(ctx, s):
                 eq_or_violation(ctx, 'provider-repr',
                                 e['parent_provider_uuid'],
                                 U(par) if par else None, 'parent uuid (list)')
+
+
+def read_catalogue(ctx, s):
+    """traits and resource classes: listing with filters, single reads"""
+    m = to_z3(ctx.data['minor'])
+    known = {T1, T2, 'CUSTOM_T3', 'HW_CPU_X86_AVX'}
+    assoc = {T1: s.tr[(1, T1)], T2: s.tr[(2, T2)]}
+    for q, want in (
+            ('', {t: True for t in known}),
+            ('?associated=true', dict(assoc)),
+            ('?associated=false', {t: Not(assoc[t]) if t in assoc else True
+                                   for t in known}),
+            ('?name=startswith:CUSTOM_T', {T1: True, T2: True,
+                                           'CUSTOM_T3': True}),
+            ('?name=in:%s,HW_CPU_X86_AVX' % T1, {T1: True,
+                                                 'HW_CPU_X86_AVX': True}),
+            ('?name=startswith:CUSTOM_T&associated=true', dict(assoc))):
+        r = app.call('GET', '/traits' + q, version='sym')
+        if r.status != 200:
+            obligation(ctx, 'traits-repr', m >= 6,
+                       'GET /traits%s answered %d from 1.6 on' % (q, r.status))
+            continue
+        obligation(ctx, 'traits-repr', m < 6, 'traits served below 1.6')
+        got = set(r.json['traits'])
+        for t in known:
+            presence(ctx, 'traits-repr', t in got, want.get(t, False),
+                     'trait %s in GET /traits%s' % (t, q))
+        if got - known:
+            runner.violation(ctx, 'traits-repr', 'unknown traits %s in %s'
+                             % (sorted(got - known), q))
+    for t, there in ((T1, True), ('CUSTOM_NOPE', False),
+                     ('HW_CPU_X86_AVX', True)):
+        r = app.call('GET', '/traits/' + t, version='1.36')
+        if (r.status == 204) != there or r.status not in (204, 404):
+            runner.violation(ctx, 'traits-repr', 'GET /traits/%s: %d'
+                             % (t, r.status))
+    r = app.call('GET', '/resource_classes', version='sym')
+    if r.status != 200:
+        obligation(ctx, 'classes-repr', m >= 2,
+                   'GET /resource_classes answered %d from 1.2 on' % r.status)
+    else:
+        obligation(ctx, 'classes-repr', m < 2, 'classes served below 1.2')
+        got = {e['name'] for e in r.json['resource_classes']}
+        if got != {'VCPU', 'DISK_GB', 'CUSTOM_FOO', 'CUSTOM_BAR'}:
+            runner.violation(ctx, 'classes-repr', 'listed %s' % sorted(got))
+    for c, there in (('VCPU', True), ('CUSTOM_FOO', True),
+                     ('CUSTOM_NOPE', False)):
+        r = app.call('GET', '/resource_classes/' + c, version='1.36')
+        if (r.status == 200) != there or r.status not in (200, 404):
+            runner.violation(ctx, 'classes-repr', 'GET class %s: %d'
+                             % (c, r.status))
+        if r.status == 200 and r.json.get('name') != c:
+            runner.violation(ctx, 'classes-repr', 'GET class %s names %r'
+                             % (c, r.json.get('name')))
 
 
 def read_inventories(ctx, s):
@@ -457,7 +516,8 @@ OWNERSHIPS = [
 ]
 
 
-READS = dict(provider=read_provider, provider_list=read_provider_list, inventories=read_inventories,
+READS = dict(provider=read_provider, provider_list=read_provider_list,
+             catalogue=read_catalogue, inventories=read_inventories,
              traits_aggs=read_traits_aggs, usages=read_usages,
              allocations=read_allocations, totals=read_totals)
 
@@ -1186,6 +1246,158 @@ def w_post_provider(ctx, s):
     return r
 
 
+def _rows(post, table, **eq):
+    return [x for x in post[table]
+            if all(x.vals[k] == v for k, v in eq.items())]
+
+
+def w_delete_trait(ctx, s):
+    """DELETE /traits/{name}: custom and unused -> 204 and gone; in use ->
+    409; standard -> 400; unknown -> 404"""
+    t = (T1, T2, 'CUSTOM_T3', 'HW_CPU_X86_AVX', 'CUSTOM_NOPE',
+         'custom_t3')[symex.choose(6)]
+    r = app.call('DELETE', '/traits/' + t, version='1.36')
+    post = s.w.dump()
+    in_use = {T1: s.tr[(1, T1)], T2: s.tr[(2, T2)]}.get(t, False)
+    want = {'HW_CPU_X86_AVX': {400: True}, 'CUSTOM_NOPE': {404: True},
+            'custom_t3': {404: True}}.get(
+                t, {204: Not(in_use), 409: in_use})
+    if r.status not in want:
+        runner.violation(ctx, 'write-status', 'DELETE trait %s: %d' % (
+            t, r.status), sig='%s:%d' % (t, r.status))
+        return r
+    obligation(ctx, 'write-status', zbool(Not(want[r.status])),
+               'DELETE trait %s answered %d in a state whose documented '
+               'answer differs' % (t, r.status), sig='%s:%d' % (t, r.status))
+    left = Or(*[x.present for x in _rows(post, 'traits', name=t)])
+    if r.status == 204:
+        obligation(ctx, 'write-effect', zbool(left), 'trait survives DELETE')
+    elif t in s.w.traits:
+        obligation(ctx, 'write-effect', zbool(Not(left)),
+                   'trait removed by a refused DELETE')
+    obligation(ctx, 'write-effect',
+               zbool(rel_diff(s.pre, post, ('resource_provider_traits',))),
+               'DELETE trait changed provider associations')
+    return r
+
+
+def w_put_trait(ctx, s):
+    t = ('CUSTOM_NEW', T1, 'HW_CPU_X86_AVX', 'NOT_CUSTOM', 'CUSTOM_x',
+         'CUSTOM_' + 'A' * 249)[symex.choose(6)]
+    r = app.call('PUT', '/traits/' + t, version='1.36')
+    post = s.w.dump()
+    want = {'CUSTOM_NEW': 201, T1: 204, 'HW_CPU_X86_AVX': 400,
+            'NOT_CUSTOM': 400, 'CUSTOM_x': 400}.get(t, 400)
+    if r.status != want:
+        runner.violation(ctx, 'write-status', 'PUT trait %s: %d, documented '
+                         '%d' % (t[:20], r.status, want), sig=t[:20])
+    rows = _rows(post, 'traits', name=t)
+    there = Or(*[x.present for x in rows])
+    if r.status in (201, 204):
+        obligation(ctx, 'write-effect', zbool(Not(there)),
+                   'trait missing after PUT')
+        back = app.call('GET', '/traits/' + t, version='1.36')
+        if back.status != 204:
+            runner.violation(ctx, 'write-effect', 'GET after PUT: %d'
+                             % back.status)
+    if len(rows) > 1:
+        obligation(ctx, 'write-effect',
+                   zbool(And(rows[0].present, rows[1].present)),
+                   'duplicate trait rows')
+    return r
+
+
+def w_delete_class(ctx, s):
+    c = ('CUSTOM_FOO', 'CUSTOM_BAR', 'VCPU', 'CUSTOM_NOPE')[symex.choose(4)]
+    r = app.call('DELETE', '/resource_classes/' + c, version='1.36')
+    post = s.w.dump()
+    in_use = s.inv[(2, 'CUSTOM_FOO')]['present'] if c == 'CUSTOM_FOO' \
+        else False
+    want = {'VCPU': {400: True}, 'CUSTOM_NOPE': {404: True}}.get(
+        c, {204: Not(in_use), 409: in_use})
+    if r.status not in want:
+        runner.violation(ctx, 'write-status', 'DELETE class %s: %d' % (
+            c, r.status), sig='%s:%d' % (c, r.status))
+        return r
+    obligation(ctx, 'write-status', zbool(Not(want[r.status])),
+               'DELETE class %s answered %d in a state whose documented '
+               'answer differs' % (c, r.status), sig='%s:%d' % (c, r.status))
+    left = Or(*[x.present for x in _rows(post, 'resource_classes', name=c)])
+    if r.status == 204:
+        obligation(ctx, 'write-effect', zbool(left), 'class survives DELETE')
+    elif c in s.w.rcs:
+        obligation(ctx, 'write-effect', zbool(Not(left)),
+                   'class removed by a refused DELETE')
+    obligation(ctx, 'write-effect',
+               zbool(rel_diff(s.pre, post, ('inventories',))),
+               'DELETE class changed inventories')
+    return r
+
+
+def w_put_post_class(ctx, s):
+    """creation (POST 1.2+, PUT 1.7+) and the old rename (PUT 1.2-1.6) at a
+    symbolic microversion"""
+    app.sym_minor(ctx)
+    m = to_z3(ctx.data['minor'])
+    kind = symex.choose(3)
+    if kind == 0:
+        name = ('CUSTOM_NEW', 'CUSTOM_FOO', 'VCPU', 'CUSTOM_new')[
+            symex.choose(4)]
+        r = app.call('POST', '/resource_classes', {'name': name},
+                     version='sym')
+        want = {'CUSTOM_NEW': 201, 'CUSTOM_FOO': 409}.get(name, 400)
+        what = 'POST class %s' % name
+        gate = m >= 2
+    elif kind == 1:
+        name = ('CUSTOM_NEW', 'CUSTOM_FOO', 'VCPU', 'CUSTOM_new')[
+            symex.choose(4)]
+        lo = app.sym_minor(ctx, 7, 39)
+        m = to_z3(lo)
+        r = app.call('PUT', '/resource_classes/' + name, version='sym')
+        want = {'CUSTOM_NEW': 201, 'CUSTOM_FOO': 204}.get(name, 400)
+        what = 'PUT class %s (create)' % name
+        gate = z3.BoolVal(True)
+    else:
+        old, name = (('CUSTOM_BAR', 'CUSTOM_NEW'), ('CUSTOM_BAR', 'CUSTOM_FOO'),
+                     ('VCPU', 'CUSTOM_NEW'), ('CUSTOM_NOPE', 'CUSTOM_NEW'),
+                     ('CUSTOM_BAR', 'VCPU'))[symex.choose(5)]
+        lo = app.sym_minor(ctx, 2, 6)
+        m = to_z3(lo)
+        r = app.call('PUT', '/resource_classes/' + old, {'name': name},
+                     version='sym')
+        want = {('CUSTOM_BAR', 'CUSTOM_NEW'): 200,
+                ('CUSTOM_BAR', 'CUSTOM_FOO'): 409,
+                ('VCPU', 'CUSTOM_NEW'): 400, ('CUSTOM_NOPE', 'CUSTOM_NEW'): 404,
+                ('CUSTOM_BAR', 'VCPU'): 400}[(old, name)]
+        what = 'PUT class %s -> %s (rename)' % (old, name)
+        gate = z3.BoolVal(True)
+    post = s.w.dump()
+    if r.status in (404, 405) and kind == 0:
+        obligation(ctx, 'write-status', gate,
+                   '%s answered %d from 1.2 on' % (what, r.status))
+    elif r.status != want:
+        obligation(ctx, 'write-status', gate if kind == 0 else
+                   z3.BoolVal(True),
+                   '%s answered %d, documented %d' % (what, r.status, want),
+                   sig='%s:%d' % (what, r.status))
+    if r.status in (200, 201, 204):
+        rows = _rows(post, 'resource_classes', name=name)
+        obligation(ctx, 'write-effect',
+                   zbool(Not(Or(*[x.present for x in rows]))),
+                   '%s: class missing afterwards' % what)
+        for x in rows:
+            if x.vals['name'] == 'CUSTOM_NEW':
+                obligation(ctx, 'write-effect',
+                           z3.And(zbool(x.present),
+                                  to_z3(x.vals['id']) < 10000),
+                           'custom class with a standard identifier')
+    else:
+        obligation(ctx, 'write-effect',
+                   zbool(rel_diff(s.pre, post, ('resource_classes',))),
+                   '%s refused but classes changed' % what)
+    return r
+
+
 WRITES = dict(put_allocations=w_put_allocations,
               put_allocations_attrs=w_put_allocations_attrs,
               put_inventories=w_put_inventories,
@@ -1198,7 +1410,9 @@ WRITES = dict(put_allocations=w_put_allocations,
               post_allocations=w_post_allocations,
               put_allocations_legacy=w_put_allocations_legacy,
               delete_provider=w_delete_provider, put_provider=w_put_provider,
-              post_provider=w_post_provider)
+              post_provider=w_post_provider,
+              delete_trait=w_delete_trait, put_trait=w_put_trait,
+              delete_class=w_delete_class, put_post_class=w_put_post_class)
 
 
 def fam_write(name):
@@ -1240,9 +1454,9 @@ if __name__ == '__main__':
                      'routes of WRITES (PUT/POST/DELETE allocations incl. '
                      'the 1.0-1.27 formats, PUT/POST/DELETE inventories, '
                      'PUT/DELETE traits, PUT aggregates, POST/PUT/DELETE '
-                     'resource_providers); the resource class / trait '
-                     'catalogue and the reshaper are covered by C01/C04/C08/'
-                     'C10/C12/C19 for their own clauses and are NOT claimed '
+                     'resource_providers, PUT/DELETE traits, POST/PUT/DELETE '
+                     'resource_classes); the reshaper is covered by C01/C04/'
+                     'C08/C10/C12 for its own clauses and is NOT claimed '
                      'here',
                      'pre-state valid: allocation => inventory, consumer <=> '
                      'allocations'],
